@@ -42,6 +42,8 @@ pub fn alphabet(full: bool) -> Vec<&'static str> {
         "x",
         "Title: a // b",
         " Mode: 1",
+        // in UTF-16 both code units contain the byte 0x0A without being a line feed
+        "Title:\u{10A}\u{A00}",
     ];
     if full {
         a.extend([
@@ -310,7 +312,7 @@ pub fn run(tier: Tier) -> i32 {
         exhaustive: true,
         caps_hit: vec![],
         assumptions: vec![
-            "line contents restricted to the alphabet; text encodings beyond ASCII are C10's subject".into(),
+            "line contents restricted to the alphabet (one non-ASCII record whose UTF-16 units contain the byte 0x0A); text encodings in general are C10's subject".into(),
             "comment inserted before the first non-blank line is outside the corollary (DESIGN section 7)".into(),
         ],
     };
